@@ -683,6 +683,13 @@ func evalGroup(node *jparse.GroupNode, data reflect.Value, env *environment) (re
 		return undefined, err
 	}
 
+	if items == undefined {
+		// Nothing to group: no items, rather than one item that
+		// is nothing (which $count($) would count, and which
+		// would make every computed key an illegal non-string key).
+		items = reflect.MakeSlice(typeInterfaceSlice, 0, 0)
+	}
+
 	return evalObject(node.ObjectNode, items, env)
 }
 
